@@ -623,3 +623,31 @@ func S3e(tier string) *Scenario {
 	}
 	return scenFrom("S3e-fixed-then-batch-extended", cfg, pre, bud, al, nil)
 }
+
+// S5big: the boundary schedule of 100 instalments of 0.01 each (the documented maximum).
+func S5big() *Scenario {
+	var ws []string
+	for i := 0; i < 100; i++ {
+		ws = append(ws, "0.01")
+	}
+	s := S5("quick", ws, "n100")
+	s.al.FixedAmts = []string{"1", "7", "10"}
+	s.al.BlockStops = []int{2, 3, 4, 52, 101, 102, 103}
+	s.al.MaxK = 103
+	s.Budget = Budget{"bid": 2, "block": 5, "tick": 0}
+	return s
+}
+
+// S2max: the round limit. A batch auction with the maximum of 30 extension rounds, extension period
+// 0 and an empty or one-bid book: every block (+1 h ticks) is at an end time; the auction must extend
+// exactly 30 times and settle at the 31st end time.
+func S2max() *Scenario {
+	cfg := world.Config{Balances: stdBalances(), Params: params("", "", 0)}
+	pre := []Op{
+		{Kind: "create_batch", Signer: "auc1", StartPrice: "1", MinPrice: "0.5", Sell: "4acoin", PayDenom: "bcoin", StartK: 0, EndK: 1, MaxExt: 30, Rate: "1"},
+		{Kind: "add_allowed", AID: 0, Bidder: "bid1", Max: "4"},
+	}
+	al := &Alphabet{Bidders: []string{"bid1"}, BatchPrices: []string{"1"}, ManyAmts: []string{"1"}, MaxK: 1, BlockStops: []int{1}}
+	bud := Budget{"bid": 1, "block": 1, "tick": 34}
+	return scenFrom("S2max-30-rounds-period0", cfg, pre, bud, al, nil)
+}
